@@ -12,6 +12,13 @@ mod supervisor;
 #[cfg(test)]
 mod tests;
 
+/// Verification hooks (only compiled with `--cfg p2panda_p2panda_verif`).
+#[cfg(p2panda_p2panda_verif)]
+#[doc(hidden)]
+pub mod verif {
+    pub use super::backoff::{Backoff, Config as BackoffConfig};
+}
+
 pub use actors::DiscoveryMetrics;
 pub use api::{Discovery, DiscoveryError};
 pub use builder::Builder;
